@@ -44,8 +44,8 @@ def _balance(path):
 
 def sizes(tier):
     if tier == "quick":
-        return dict(strings=1500, floats=1500, containers=40, run=40, yaml=150)
-    return dict(strings=60000, floats=120000, containers=600, run=1200, yaml=6000)
+        return dict(strings=1500, floats=1500, containers=40, run=40, yaml=150, retain=300, concurrent=0)
+    return dict(strings=60000, floats=120000, containers=600, run=1200, yaml=6000, retain=20000, concurrent=3000)
 
 
 def run(tier, seed):
@@ -90,7 +90,7 @@ def run(tier, seed):
         mark("model-build")
     if exe_h and exe_m:
         n = sizes(tier)
-        for s in STREAMS + ["yaml"]:
+        for s in STREAMS + ["yaml", "retain", "concurrent"]:
             rc, out, cases, st = V.run_harness("c12", s, seed, n[s], tier, name="c12-" + s)
             stats[s] = st
             mark("harness-run")
@@ -100,7 +100,7 @@ def run(tier, seed):
             for v in (st.get("impl_violations") or []):
                 case, _, det = v.partition(" :: ")
                 c.failing_input("implementation-only oracle (%s)" % s, case, det or v)
-            if s == "yaml":
+            if s in ("yaml", "retain", "concurrent"):
                 c.evaluations += st.get("lines", 0)
                 continue
             _balance(cases)
@@ -113,6 +113,22 @@ def run(tier, seed):
             mark("model-run:" + s)
             mism += [(s, l, v) for l, v in m]
             smism += [(s, l, v) for l, v in sm]
+    if exe_h and tier == "thorough":
+        # 8 goroutines marshalling distinct values under the race detector
+        exe_r, rlog = V.build_harness("c12", out="harness-c12-race", extra_flags=["-race"])
+        if exe_r is None:
+            c.notes.append("race build unavailable: " + V.tail(rlog, 5))
+        else:
+            rc, out, cases, st = V.run_harness("c12-race", "concurrent", seed, 1000, tier, name="c12-concurrent-race")
+            stats["concurrent-race"] = st
+            for v in (st.get("impl_violations") or []):
+                case, _, det = v.partition(" :: ")
+                c.failing_input("implementation-only oracle (concurrent, -race)", case, det or v)
+            if rc != 0:
+                c.failing_input("data race (go build -race)", "concurrent Marshal: 8 goroutines, distinct values",
+                                "the race detector reports a data race (exit %s)\n%s" % (rc, V.tail(out, 40)))
+            c.evaluations += st.get("lines", 0)
+            mark("race")
     # impl != reference reader: the implementation's bytes violate the property on that input
     sbad = set()
     for s, line, verdict in smism[:10]:
@@ -130,7 +146,11 @@ def run(tier, seed):
             "powers of ten, random bits). containers: fixed and random values x {compact, indent 0..9, tab} x {plain, "
             "colour tables incl. nil entries}; indent counts n around 16/32/64/.../1024; deep nesting; values larger than the "
             "8 KiB flush threshold. run: the whole command with -c/--tab/--indent n/-C/-M/-r/-j/--raw-output0/GOJQ_COLORS. "
-            "yaml: --yaml-output then --yaml-input on sample values (implementation only). distinct = distinct case lines")
+            "yaml: --yaml-output then --yaml-input on sample values (implementation only). retained results: the slices returned by "
+            "Marshal (not copies) and the strings returned by tojson/@json/@text/tostring are kept for a window of 64 calls in every "
+            "stream and must equal the copy taken at return time after every later call (stream retain: result sizes 1 B..100 KB, "
+            "shrinking and growing); concurrent: 8 goroutines marshal distinct values and verify their own results (with -race in the "
+            "thorough tier). distinct = distinct case lines")
     return c.finish(rule, extra_cov=dict(harness_stats=stats, phases_s=phases))
 
 
